@@ -40,6 +40,7 @@ def configs(tier):
     if tier == "thorough":
         refs += [((2, 2), None), ((2, 1, 1), None), ((2, 1, 1), [0, 1]), ((2, 2, 1), [1, 2])]
     out.append(dict(key="sampler,re-initialised,ref=(1, 1, 1),gt=[0, 2],float_pivot", kind="sampler", sizes=[1, 1, 1], gt=[0, 2], pivot="float_pivot", reinit=True, cost=500))
+    out.append(dict(key="sampler,ref=(2, 1),gt=None,float_pivot,ties-on-start-allowed", kind="sampler", sizes=[2, 1], gt=None, pivot="float_pivot", ties=True, cost=3000))
     for sizes, gt in refs:
         for piv in ("float_pivot", "int_pivot"):
             out.append(dict(key=f"sampler,ref={sizes},gt={gt},{piv}", kind="sampler", sizes=list(sizes), gt=gt, pivot=piv,
@@ -95,7 +96,8 @@ def harness(cfg, ns):
     gt_idx = cfg["gt"]
 
     def h(ctx):
-        c, info = common.build_continuum(ns, ctx, sizes, coords="sym", labels=[("x", "y")[k % 2] for k in range(sum(sizes))])
+        c, info = common.build_continuum(ns, ctx, sizes, coords="sym", labels=[("x", "y")[k % 2] for k in range(sum(sizes))],
+                                         ordered=("weak" if cfg.get("ties") else True))
         # bounds: any values enclosing the units (slack allowed), as the container invariant guarantees
         lo, hi = ctx.fresh("slack_lo", lo=0), ctx.fresh("slack_hi", lo=0)
         c.bound_inf = c.bound_inf - lo
